@@ -120,3 +120,100 @@ Lemma resolver_of_view_roundtrip_example :
   resolver_of_view rt_universe (fresh_view (mk_names_of rt_universe) (mk_iif_of rt_universe) (dq_difference rt_universe) c [])
   = Resolver.new_resolver (flatten rt_universe [1; 0]).
 Proof. vm_compute. reflexivity. Qed.
+
+(* ---- one trigger event per loop: the iteration order is irrelevant -------------------
+   [st0] = (deps, added) when the range loop starts. Suppose a single visit
+   either changes nothing or leads to ONE state [st1], and [st1] is absorbing
+   (no visit changes it): "at most one install_if event can happen in this
+   loop". Then every schedule that contains the initial keys ends in the same
+   state. *)
+Definition iif_state := (list Resolver.pid * list (string * Resolver.pid))%type.
+
+Definition SingleTrigger (R : Resolver.resolver) (st0 st1 : iif_state) : Prop :=
+  (forall key, Resolver.iif_visit R key st0 = st0 \/ Resolver.iif_visit R key st0 = st1) /\
+  (forall key, Resolver.iif_visit R key st1 = st1).
+
+Definition run (R : Resolver.resolver) (sched : list string) (st : iif_state) : iif_state :=
+  fold_left (fun st key => Resolver.iif_visit R key st) sched st.
+
+Lemma run_absorbing : forall R st1 sched, (forall key, Resolver.iif_visit R key st1 = st1) -> run R sched st1 = st1.
+Proof.
+  intros R st1 sched H. induction sched as [|k s IH]; [reflexivity|]. unfold run in *. cbn [fold_left]. rewrite H. exact IH.
+Qed.
+
+Lemma run_single : forall R st0 st1 sched, SingleTrigger R st0 st1 ->
+  (run R sched st0 = st0 /\ forall key, In key sched -> Resolver.iif_visit R key st0 = st0) \/
+  (run R sched st0 = st1 /\ exists key, In key sched /\ Resolver.iif_visit R key st0 = st1).
+Proof.
+  intros R st0 st1 sched [H0 H1]. induction sched as [|k s IH].
+  - left. split; [reflexivity | intros key []].
+  - unfold run. cbn [fold_left]. fold (run R s (Resolver.iif_visit R k st0)).
+    destruct (H0 k) as [E|E]; rewrite E.
+    + destruct IH as [[A B]|[A [key [I T]]]].
+      * left. split; [exact A|]. intros key [<-|I]; [exact E | apply B; exact I].
+      * right. split; [exact A|]. exists key. split; [right; exact I | exact T].
+    + right. split; [apply run_absorbing; exact H1|]. exists k. split; [left; reflexivity | exact E].
+Qed.
+
+(* a visit of a key that is not in `added` does nothing *)
+Lemma visit_absent : forall R key deps added,
+  Resolver.alookup key added = None -> Resolver.iif_visit R key (deps, added) = (deps, added).
+Proof. intros R key deps added H. unfold Resolver.iif_visit. rewrite H. reflexivity. Qed.
+
+Lemma mem_str_in : forall k l, Resolver.mem_str k l = true <-> In k l.
+Proof.
+  intros k l. unfold Resolver.mem_str. rewrite existsb_exists. split.
+  - intros [x [I E]]. apply String.eqb_eq in E. subst. exact I.
+  - intro I. exists k. split; [exact I | apply String.eqb_refl].
+Qed.
+
+Lemma alookup_none_not_key : forall {A} key (m : list (string * A)),
+  ~ In key (List.map fst m) -> Resolver.alookup key m = None.
+Proof.
+  intros A key. induction m as [|[k v] m IH]; intro H; [reflexivity|]. cbn [Resolver.alookup].
+  destruct (String.eqb k key) eqn:E.
+  - apply String.eqb_eq in E. subst. exfalso. apply H. left. reflexivity.
+  - apply IH. intro I. apply H. right. exact I.
+Qed.
+
+Theorem iif_loop_single_trigger : forall R deps added st1 s1 s2,
+  SingleTrigger R (deps, added) st1 ->
+  Resolver.legal_sched_b (List.map fst added) s1 = true ->
+  Resolver.legal_sched_b (List.map fst added) s2 = true ->
+  Resolver.iif_loop R s1 deps added = Resolver.iif_loop R s2 deps added.
+Proof.
+  intros R deps added st1 s1 s2 S L1 L2. unfold Resolver.iif_loop.
+  fold (run R s1 (deps, added)). fold (run R s2 (deps, added)).
+  assert (K : forall s, Resolver.legal_sched_b (List.map fst added) s = true ->
+                        forall key, In key (List.map fst added) -> In key s).
+  { intros s L key I. unfold Resolver.legal_sched_b in L. apply andb_true_iff in L. destruct L as [L _].
+    rewrite forallb_forall in L. apply mem_str_in. apply L. exact I. }
+  (* a triggering key is an initial key *)
+  assert (T : forall key, Resolver.iif_visit R key (deps, added) <> (deps, added) -> In key (List.map fst added)).
+  { intros key N. destruct (in_dec string_dec key (List.map fst added)) as [I|I]; [exact I|].
+    exfalso. apply N. apply visit_absent. apply alookup_none_not_key. exact I. }
+  assert (D : {st1 = (deps, added)} + {st1 <> (deps, added)}).
+  { repeat decide equality. }
+  destruct (run_single R (deps, added) st1 s1 S) as [[A1 B1]|[A1 [k1 [I1 T1]]]];
+  destruct (run_single R (deps, added) st1 s2 S) as [[A2 B2]|[A2 [k2 [I2 T2]]]]; rewrite A1, A2; try reflexivity.
+  - (* s1 met no trigger, s2 did: then the trigger changed nothing *)
+    destruct D as [E|N]; [rewrite E; reflexivity|].
+    exfalso. apply N. rewrite <- T2. apply B1. apply (K s1 L1). apply T. rewrite T2. exact N.
+  - destruct D as [E|N]; [rewrite E; reflexivity|].
+    exfalso. apply N. rewrite <- T1. apply B2. apply (K s2 L2). apply T. rewrite T1. exact N.
+Qed.
+
+(* the hypothesis is satisfiable in a universe WITH a triggered install_if package *)
+Definition st_universe : Resolver.universe := [P "w" "1" ["a"] []; P "a" "1" [] []; P "a-x" "1" [] ["a"]].
+Lemma single_trigger_example :
+  let R := Resolver.new_resolver st_universe in
+  (exists dq sel i, Resolver.get_pkg_core R (Resolver.cook_str "w") [] [] [] = Ok (dq, sel, i, [1], [("a", 1)])) /\
+  SingleTrigger R ([1], [("a", 1)]) ([1; 2], [("a", 1); ("a-x", 2)]).
+Proof.
+  split; [eexists _, _, _; vm_compute; reflexivity|]. split; intro key.
+  - destruct (string_dec key "a") as [->|N]; [right; vm_compute; reflexivity|].
+    left. apply visit_absent. apply alookup_none_not_key. cbn. intros [H|[]]. congruence.
+  - destruct (string_dec key "a") as [->|N1]; [vm_compute; reflexivity|].
+    destruct (string_dec key "a-x") as [->|N2]; [vm_compute; reflexivity|].
+    apply visit_absent. apply alookup_none_not_key. cbn. intros [H|[H|[]]]; congruence.
+Qed.
